@@ -1,5 +1,5 @@
 CONSTANTS
-  MaxOps = 4
+  MaxOps = 5
   EmitOn = FALSE
   OldReserve = FALSE
 INIT Init
